@@ -209,7 +209,11 @@ func cmdCheck(args []string) int {
 		runs = append(runs, &HarnessRun{Spec: s, fn: f})
 	}
 	workers, _ := strconv.Atoi(envOr("VERIF_WORKERS", "16"))
-	tmo, _ := strconv.Atoi(envOr("VERIF_SOLVER_TIMEOUT_MS", "60000"))
+	defTmo := "60000"
+	if c.tier == "thorough" {
+		defTmo = "240000" // the 1500-byte checksum composition needs minutes on a busy machine
+	}
+	tmo, _ := strconv.Atoi(envOr("VERIF_SOLVER_TIMEOUT_MS", defTmo))
 	pool := NewPool(prog, Config{MaxSteps: 3000000, TimeoutMs: tmo, Workers: workers})
 	te := time.Now()
 	pool.RunAll(runs)
